@@ -199,7 +199,11 @@ def gen_world(rng):
     sigs = rng.sample(['changed', 'went-away'], rng.randint(0, 2))
     dump = ('<?xml version="1.0"?><dump><class name="FooObj" get-type="foo_obj_get_type" parents="GObject">'
             + ''.join('<property name="%s" type="gint" flags="3"/>' % p for p in props)
-            + ''.join('<signal name="%s" return="void"/>' % sg for sg in sigs) + '</class></dump>')
+            + ''.join('<signal name="%s" return="void">%s</signal>' % (sg, '<param type="gint"/>' if sg == 'changed' else '') for sg in sigs)
+            + '</class></dump>')
+    # the emitters the signal blocks name: methods with the parameters of the signal behind the instance
+    syms += [S.func('foo_obj_emit_it', S.VOID, [S.param('self', S.ptr(S.td('FooObj'))), S.param('x', S.td('gint'))], line=340),
+             S.func('foo_obj_emit_gone', S.VOID, [S.param('self', S.ptr(S.td('FooObj')))], line=341)]
     if rng.random() < 0.7:
         b = gen_block(rng, [('ref-func', ['foo_obj_ref']), ('unref-func', ['foo_obj_unref']), ('set-value-func', ['foo_value_set_obj']),
                             ('get-value-func', ['foo_value_get_obj'])])
@@ -213,7 +217,7 @@ def gen_world(rng):
         elems.append(('EProperty', 'SProperty', 'FooObj', p, ('property', 'Obj', p)))
     for sg in sigs:
         if rng.random() < 0.7:
-            b = gen_block(rng, [('emitter', ['emit_it'])])
+            b = gen_block(rng, [('emitter', ['emit_it' if sg == 'changed' else 'emit_gone'])])
             blocks.append(('FooObj::%s' % sg, b, render_block('FooObj::%s' % sg, b)))
         elems.append(('ESignal', 'SSignal', 'FooObj', sg, ('signal', 'Obj', sg)))
     # the class structure: three virtual methods; their invoker methods are found by name (same) or named by (virtual SLOT)
